@@ -459,7 +459,7 @@ func (c *Ctx) RuleFmtTrim() *Result {
 			if len(call.Call.Args) > 1 {
 				cut, _ = constString(call.Call.Args[1])
 			}
-			if f.Name() == pname && cut == pcut {
+			if f.Name() == pname && sameByteSet(cut, pcut) {
 				res.ok(key, c.P.InstrPos(call), fmt.Sprintf("the compiler's own indentation strip (%s with %q, %s)", pname, pcut, ppos))
 			} else {
 				res.bad(key, c.P.InstrPos(call), fmt.Sprintf("the formatter removes text with %s where the compiler removes indentation with %s(line, %q): white space that is part of an entry for generate (trailing blanks, a leading form feed or no-break space) is deleted by format, so the regex changes", qualName(f), pname, pcut))
@@ -467,6 +467,18 @@ func (c *Ctx) RuleFmtTrim() *Result {
 		})
 	}
 	return res
+}
+
+// sameByteSet: two cutsets name the same set of bytes (their order and repetitions do not matter).
+func sameByteSet(a, b string) bool {
+	set := func(s string) [256]bool {
+		var m [256]bool
+		for i := 0; i < len(s); i++ {
+			m[s[i]] = true
+		}
+		return m
+	}
+	return set(a) == set(b)
 }
 
 // formatterChains: functions of package cmd that classify a line with the directive patterns.
@@ -652,12 +664,40 @@ func (c *Ctx) RuleWriteReached(commands ...string) *Result {
 					}
 				}
 			})
+			if !hasWalk {
+				// the walk is delegated to a helper of the repository (a walk skeleton with a callback)
+				allInstrs(fn, func(in ssa.Instruction) {
+					if cc := callCommon(in); cc != nil {
+						if sf := staticFn(cc); sf != nil && c.P.IsRepoFn(sf) {
+							if _, _, isWalk := walkSkeleton(sf); isWalk {
+								hasWalk = true
+							}
+						}
+					}
+				})
+			}
 			if hasWalk {
 				continue
 			}
 			res.Instances++
 			key := fmt.Sprintf("cmd %s:%s:no silent way past the write", name, load.FnName(fn))
 			missed := ""
+			// nothing to change: the text to be written was found equal to the text that is there
+			// (a comparison of a text parameter of the function with a value that is not a constant)
+			nothingToChange := func(cond ssa.Value, val bool) bool {
+				b, ok := cond.(*ssa.BinOp)
+				if !ok || b.Op != token.EQL || !val || !isStringType(b.X.Type()) {
+					return false
+				}
+				_, kx := b.X.(*ssa.Const)
+				_, ky := b.Y.(*ssa.Const)
+				if kx || ky {
+					return false
+				}
+				_, px := stripConv(b.X).(*ssa.Parameter)
+				_, py := stripConv(b.Y).(*ssa.Parameter)
+				return px || py
+			}
 			c.explore(fn.Blocks[0], 0, newEnvAt(fn.Blocks[0]), exploreCB{
 				instr: func(in ssa.Instruction, e *pathEnv) bool {
 					if sites[in] {
@@ -671,7 +711,7 @@ func (c *Ctx) RuleWriteReached(commands ...string) *Result {
 					return false
 				},
 				ret: func(r *ssa.Return, e *pathEnv) {
-					if missed == "" {
+					if missed == "" && !c.guardedByEdges(r, nothingToChange) {
 						missed = c.P.InstrPos(r)
 					}
 				},
